@@ -44,10 +44,8 @@ fn run(check_post: bool) {
                 //    (column, at) in vk.cs.fixed_queries, column.index() < cs.num_fixed_columns;
                 //  proofs/src/plonk/permutation/verifier.rs zips vk.permutation.commitments with the
                 //    permutation columns.
-                assert!(
-                    vk.fixed_commitments().len() >= vk.cs().num_fixed_columns(),
-                    "a fixed column of the constraint system has no commitment in the decoded key"
-                );
+                // a fixed column of the constraint system has no commitment in the decoded key?
+                assert!(vk.fixed_commitments().len() >= vk.cs().num_fixed_columns());
                 assert!(vk.permutation().commitments().len() == vk.cs().permutation().get_columns().len());
             }
             core::mem::forget(vk);
